@@ -491,7 +491,7 @@ def real_arms(ctx):
     ctx.cov['pools'] = dict(good=len(GOOD), trunc=len(TRUNC), optdep=len(OPTDEP), good_no_options=len(GOOD0), trunc_no_options=len(TRUNC0))
     if not GOOD or not TRUNC or not OPTDEP:
         raise Inconclusive('cannot instantiate the model kinds: pools %s' % ctx.cov['pools'])
-    inst = 5 if th else 2
+    inst = 4 if th else 2
     concrete = []
     for si, c in enumerate(scheds):
         wv = to_waves(c)
@@ -563,14 +563,20 @@ def real_arms(ctx):
 
     # ---- 3. randomised concurrent drivers, logs validated by TraceJobs.tla
     if th:
-        rounds = [(g, 440) for g in (16, 8, 4, 16, 12, 2)] * 5
+        rounds = [(g, 400) for g in (16, 8, 4, 16, 12, 2)] * 5
     else:
-        rounds = [(16, 200), (8, 140), (4, 90), (12, 120)]
+        rounds = [(16, 220), (8, 160), (4, 100), (12, 140)]
     traces = collections.defaultdict(list)      # goroutines -> [(events, round)]
     ndrive = 0
+    # an interp-level job costs ~30x a decode-level one under -race (interpreter start-up): every round takes all decode-level kinds
+    # and a rotating third of the interp-level kinds
+    dspecs = [s_ for s_ in specs if s_['level'] == 'decode']
+    ispecs = [s_ for s_ in specs if s_['level'] == 'interp']
     for k, (g, n) in enumerate(rounds):
         op = os.path.join(ctx.build, 'drive_%d.ndjson' % k)
-        r = arm.run(['drive', spath, solop, op, str(g), str(n), str(ctx.seed * 1000 + k)], 'driver round %d (%d goroutines)' % (k, g), 300 + n * 3)
+        dsp = os.path.join(ctx.build, 'drive_%d_specs.ndjson' % k)
+        vlib.write_ndjson(dsp, dspecs + ispecs[k % 3::3])
+        r = arm.run(['drive', dsp, solop, op, str(g), str(n), str(ctx.seed * 1000 + k)], 'driver round %d (%d goroutines)' % (k, g), 600 + n * 3)
         if r is None:
             continue
         evs, details = [], {}
@@ -606,7 +612,6 @@ def real_arms(ctx):
     for g in sorted(traces):
         tl = [t for t, _ in traces[g]]
         cfgname = 'TraceJobs_%d.cfg' % g
-        open(os.path.join(ctx.build, cfgname), 'w').write(tcfg(g))
         rej = tv_stateful_cfg(ctx, cfgname, tcfg(g), tl, 'tv_jobs_g%d' % g, reset)
         nev += sum(len(t) for t in tl)
         ctx.cov['traces_validated_against_impl'] += len(tl)
@@ -665,8 +670,7 @@ def real_arms(ctx):
 
 def tv_stateful_cfg(ctx, cfgname, cfgtext, traces, name, reset, count=True):
     """ctx.tv_stateful with a generated cfg (the thread bound is a constant of the trace spec)"""
-    p = os.path.join(vlib.SPEC, cfgname)
-    # tv_stateful copies cfgs from spec/: pass the text through ctx.tlc's cfg_text instead
+    # tv_stateful would copy the cfg from spec/: the text goes through ctx.tlc's cfg_text instead
     for attempt in range(3):
         try:
             return ctx.tv_stateful('TraceJobs', cfgname, traces, name='%s_a%d' % (name, attempt) if attempt else name, reset_event=reset, count=count, cfg_text=cfgtext)
